@@ -212,6 +212,15 @@ class NArr:
         if not isinstance(o, NArr):
             return NotImplemented
         a, b = self, o
+        # a bare transpose is a *-algebra operation through X^T = conj(X)† (conj(X): the element-wise conjugate operand)
+        if a.pending == "T" and a.ndim == 2:
+            a = NArr(nc.transpose(a.val), a.shape)
+        if b.pending == "T" and b.ndim == 2:
+            b = NArr(nc.transpose(b.val), b.shape)
+        if a.pending == "conj" and a.ndim == 2:
+            a = NArr(nc.conj(a.val), a.shape)
+        if b.pending == "conj" and b.ndim == 2:
+            b = NArr(nc.conj(b.val), b.shape)
         if a.pending or b.pending:
             raise A.OutsideSubset("matrix product with a bare conj/transpose operand")
         if a.grid or b.grid:
@@ -490,6 +499,31 @@ class NStack:
         return NotImplemented
 
 
+class EigVals:
+    """Eigenvalue vector of a Hermitian positive definite matrix: c^(p/2) * Dh^p as a diagonal (Dh = diag(sqrt(eigenvalues)))."""
+
+    def __init__(self, Dh, power, c):
+        self.Dh, self.power, self.c = Dh, power, c
+        self.ndim = 1
+
+    def pow(self, q):
+        pw = self.power * q
+        if pw != int(pw):
+            raise A.OutsideSubset("fractional power of sqrt(eigenvalues)")
+        return EigVals(self.Dh, int(pw), self.c)
+
+    def __rtruediv__(self, o):
+        if o != 1:
+            raise A.OutsideSubset("only 1 / eigenvalues")
+        return EigVals(self.Dh, -self.power, self.c)
+
+    def as_matrix(self):
+        n = self.Dh.rows
+        at = self.Dh if self.power >= 0 else nc._inv_atom(self.Dh)
+        sc = A.qpow(self.c, Fraction(self.power, 2))
+        return NArr(NC({tuple([at] * abs(self.power)): sc}, n, n), (n, n))
+
+
 class Backend:
     """`xp` for engine N."""
 
@@ -504,6 +538,13 @@ class Backend:
             return NArr(nc.inv(x.val), x.shape[::-1])
 
         @staticmethod
+        def eig(x):
+            Dh, V, c = nc.eigh(x.val)
+            return EigVals(Dh, 2, c), NArr(NC.of(V), x.shape)
+
+        eigh = eig
+
+        @staticmethod
         def multi_dot(xs):
             out = xs[0]
             for x in xs[1:]:
@@ -512,6 +553,22 @@ class Backend:
 
     def sqrtm(self, x):
         return NArr(nc.sqrtm(x.val), x.shape)
+
+    def sqrt(self, x):
+        if isinstance(x, EigVals):
+            return x.pow(Fraction(1, 2))
+        raise A.OutsideSubset("xp.sqrt of an array is not modelled by engine N")
+
+    def diag(self, x):
+        if isinstance(x, EigVals):
+            return x.as_matrix()
+        raise A.OutsideSubset("xp.diag of a general array is not modelled by engine N")
+
+    def empty(self, shape, dtype=None, **kw):
+        shape = tuple(shape)
+        if len(shape) == 3:
+            return NStack([None for _ in range(shape[0])])
+        raise A.OutsideSubset("xp.empty of a non-stack shape")
 
     def zeros(self, shape, dtype=None, **kw):
         if isinstance(shape, int):
